@@ -6,6 +6,8 @@ import subprocess, sys, os, json, shutil, time
 def sh(cmd, cwd=None, timeout=3600):
     r = subprocess.run(cmd, shell=True, cwd=cwd, capture_output=True, text=True, timeout=timeout)
     return r.returncode, r.stdout + r.stderr
+REPO = os.environ.get('SEED_REPO', '/repo')
+HARNESS = os.environ.get('SEED_HARNESS')
 def main():
     d = os.path.abspath(sys.argv[1]); args = sys.argv[2:]
     meta = json.load(open(d + '/meta.json'))
@@ -33,18 +35,21 @@ def main():
         res['existing_tests_with_change'] = 'pass' if not bad and 'test result: ok' in out else 'FAIL: ' + '; '.join(bad[:3])
         sh('git checkout -q -- . && git clean -fdq -e target', cwd=W)
     # run my checks against it in /repo
-    rc, out = sh('git -C /repo status --porcelain'); assert out.strip() == '', 'repo not clean: ' + out
-    rc, out = sh(f'git -C /repo apply {d}/patch.diff'); assert rc == 0, out
+    rc, out = sh(f'git -C {REPO} status --porcelain'); assert out.strip() == '', 'repo not clean: ' + out
+    rc, out = sh(f'git -C {REPO} apply {d}/patch.diff'); assert rc == 0, out
     try:
         res['checks'] = {}
         for c in checks:
             t = time.time()
-            rc, out = sh(f'/verif/check {c} quick')
+            if HARNESS:
+                rc, out = sh(f'cd {HARNESS} && (cargo build --release --offline >/dev/null 2>&1 || exit 2) && target/release/vcheck --prop {c} --tier quick --no-evidence')
+            else:
+                rc, out = sh(f'/verif/check {c} quick')
             line = next((l for l in out.splitlines() if l.startswith('VIOLATION') or l.startswith('INCONCLUSIVE')), '')
             sub = next((l.strip() for l in out.splitlines() if l.strip().startswith('subcheck=')), '')
             res['checks'][c] = {'exit': rc, 'verdict': {0: 'MISSED', 1: 'CAUGHT', 2: 'INCONCLUSIVE'}.get(rc, str(rc)), 'first': (line + ' ' + sub).strip(), 'secs': round(time.time() - t, 1)}
     finally:
-        sh('git -C /repo checkout -- .')
+        sh(f'git -C {REPO} checkout -- .')
     print(json.dumps(res, indent=1))
-    json.dump(res, open(d + '/eval.json', 'w'), indent=1)
+    json.dump(res, open(d + ('/eval_baseline.json' if HARNESS else '/eval.json'), 'w'), indent=1)
 main()
